@@ -145,6 +145,48 @@ def check_clone(spec, entry, index=0, dest_blocks=0):
     return None
 
 
+@rechecked
+def check_self_reference(n_results, self_positions, nested):
+    """
+    Operation.clone() called DIRECTLY on an op that uses its own results (legal in graph regions such as a module body), optionally with a
+    nested op that uses them too: every such reference must point into the copy, and the source must not gain or lose a use.
+    """
+    from xdsl.dialects import test
+    from xdsl.dialects.builtin import ModuleOp, i32
+    from xdsl.ir import Block, Region
+
+    outer = test.TestOp(result_types=[i32])
+    a = test.TestOp(operands=[outer.results[0]] * (max(self_positions, default=0) + 2), result_types=[i32] * n_results,
+                    regions=[Region(Block())] if nested else [])
+    for p in self_positions:
+        a.operands[p] = a.results[p % n_results]
+    if nested:
+        inner = test.TestOp(operands=[a.results[0], outer.results[0]], result_types=[i32])
+        a.regions[0].blocks[0].add_ops([inner, test.TestTermOp()])
+    holder = ModuleOp([outer, a])
+    holder.verify()
+    before = str(holder)
+    uses_before = [r.uses.get_length() for r in a.results] + [outer.results[0].uses.get_length()]
+    key = "C02/op.clone"
+    c = a.clone()
+    why = refs_ok(a, c)
+    if why is None and not iso(a, c):
+        why = "clone is not isomorphic to the source"
+    uses_after = [r.uses.get_length() for r in a.results] + [outer.results[0].uses.get_length()]
+    # the outer value legitimately gains the uses of the copy; the SOURCE's own results must not
+    if why is None and uses_after[:-1] != uses_before[:-1]:
+        why = f"results of the source op gained/lost uses by cloning it: {uses_before[:-1]} -> {uses_after[:-1]}"
+    if why is None and str(holder) != before:
+        why = "the source changed textually"
+    if why:
+        return {"entry": "op.clone", "source": before, "clone": str(c), "why": why, "key": key, "self_positions": list(self_positions)}
+    try:
+        check_invariants([holder, c])
+    except Broken as e:
+        return {"entry": "op.clone", "source": before, "why": "structural invariants broken after cloning: " + str(e), "key": key}
+    return None
+
+
 def explore(tier, seed):
     rnd = random.Random(seed)
     n = 150 if tier == "quick" else 2000
@@ -159,6 +201,11 @@ def explore(tier, seed):
             f["inputs"] = {"destination_not_empty": bool(f.get("dest_blocks", 0)) and f["entry"] == "region.clone_into"}
             fails.append(f)
 
+    for n_results in (1, 2):
+        for self_positions in ((0,), (1,), (0, 1), ()):
+            for nested in (False, True):
+                cases += 1
+                rec(check_self_reference(n_results, self_positions, nested))
     for _ in range(n):
         spec = gen_spec(rnd)
         for entry in ("op.clone", "op.clone_without_regions", "region.clone", "apply_to_clone"):
@@ -169,6 +216,6 @@ def explore(tier, seed):
                 cases += 1
                 rec(check_clone(spec, "region.clone_into", index, dest_blocks))
     return {"cases": cases, "failures": fails, "exhaustive": False,
-            "bound": f"{n} seeded programs (<=2 blocks x <=3 ops, forward/outer references, successors, one nested region level) x entry points "
+            "bound": f"16 directed root ops that use their own results (graph-region feedback, with/without a nested user) cloned directly; {n} seeded programs (<=2 blocks x <=3 ops, forward/outer references, successors, one nested region level) x entry points "
                      "{Operation.clone, clone_without_regions, Region.clone, Region.clone_into (destination with 0/1/2 blocks, every index), "
                      "ModulePass.apply_to_clone}; isomorphism oracle, reference remapping, source/destination untouched, edit independence"}
